@@ -226,7 +226,7 @@ def make_group(
     domain: Optional[str] = None,
     hooks: Optional[Dict[str, Callable[..., Any]]] = None,
     return_as: Optional[str] = None,
-    inplace: bool = False,
+    inplace: Any = False,
     bases: tuple = (FeatureGroup,),
     extra: Optional[Dict[str, Any]] = None,
 ) -> Type[FeatureGroup]:
@@ -236,6 +236,8 @@ def make_group(
                requested columns (+ index columns), in the framework's native representation (or `return_as`).
     derived:   {feature_name: {"parents": [names], "expr": expr, "parent_opts": {name: {..}}}} -> the group computes
                each requested feature row-wise from its parent columns and appends it to the incoming data.
+    inplace:   False -> a new table is returned; True -> the incoming pandas frame / list of dicts is extended in place and returned;
+               "series" -> a pandas group computing one feature returns only the new column as a pd.Series (else like True).
     multi:     {feature_name: n} -> the feature is returned as n columns name~0..name~n-1 (value + i).
     hooks:     optional callables: "before_calc"(cls, data, features), "after_calc"(cls, data, features, result)
     """
@@ -288,7 +290,13 @@ def make_group(
                             new[f"{base}~{k}"] = [None if v is None else v + k for v in vals]
                     else:
                         new[n] = vals
-                result = add_columns(data, new, inplace=inplace)
+                if inplace == "series" and len(new) == 1 and hasattr(data, "columns") and hasattr(data, "assign"):
+                    import pandas as pd
+
+                    (c1, v1), = new.items()
+                    result = pd.Series(v1, index=data.index, name=c1)  # a pandas group may return just the new column
+                else:
+                    result = add_columns(data, new, inplace=bool(inplace))
             if "after_calc" in hooks:
                 r2 = hooks["after_calc"](cls, data, features, result)
                 if r2 is not None:
